@@ -6,7 +6,7 @@
    (Gen.PacketLayouts, translated from the Go source) must reproduce bytes1 from the field values
    and decode them back. *)
 From Coq Require Import List NArith ZArith String Bool.
-From Verif Require Import Base.Hex Base.Verdict Model.Layout Model.LayoutPrims Gen.PacketLayouts.
+From Verif Require Import Base.Hex Base.Verdict Model.Layout Model.LayoutPrims Model.AvailCmds Gen.PacketLayouts.
 Import ListNotations.
 Open Scope Z_scope.
 
@@ -217,7 +217,10 @@ Record case := mk {
   bytes1 : bytes;          (* Encode(v) *)
   dec : outcome;           (* Decode(bytes1) through bytes.Reader, as decodePayload does *)
   env2 : fval;             (* dump of the decoded packet (FX when not dumped / decode failed) *)
-  bytes2 : option bytes    (* Encode(decoded) when decoding succeeded *)
+  bytes2 : option bytes;   (* Encode(decoded) when decoding succeeded *)
+  (* AvailableCommands only: the command graph handed to Encode and the graph Decode built, as node tables
+     (numbered by the harness's own walk from the root: children by name, then the redirect) *)
+  cmds : option ((list node * N) * option (list node * N))
 }.
 
 Fixpoint find_entry (n : string) (es : list entry) : option entry :=
@@ -239,7 +242,21 @@ Definition bytes_roundtrip (c : case) : bool :=
 (* All four findings once recorded for C04 are repaired in the code (known_findings.jsonl: fixed) - Handshake port
    sign 84c239a, empty trailing byte array 4d8a5a4, 1.7 one-byte array length 6e760d1, tab-complete tooltip leak
    a6ee6ec.  The judge knows no exception any more: a recurrence of any of them is a violation. *)
-Definition judge (c : case) : verdict :=
+(* AvailableCommands: the decoded GRAPH must equal the original one (the byte comparison cannot see a node that
+   was never serialised); the reference wire decoder must see the same graph in the bytes *)
+Definition judge_cmds (c : case) (orig : list node * N) (dec : option (list node * N)) : verdict :=
+  if negb (bytes_roundtrip c) then VViolation else
+  match dec with
+  | None => VViolation
+  | Some (dt, dr) =>
+      if negb (same_graph (fst orig) (snd orig) dt dr) then VViolation
+      else match decode_wire (cv c) (bytes1 c) with
+           | None => VMismatch
+           | Some (wt, wr) => if same_graph wt wr (fst orig) (snd orig) then VOk else VMismatch
+           end
+  end.
+
+Definition judge_packet (c : case) : verdict :=
   let ctx := mkctx (cv c) (cb c) in
   match find_entry (tname c) packets with
   | None => VMismatch                       (* a registered type the translator did not see *)
@@ -260,4 +277,10 @@ Definition judge (c : case) : verdict :=
           else if negb model_enc then VMismatch      (* cannot even explain the encoding: model problem first *)
           else VViolation
       end
+  end.
+
+Definition judge (c : case) : verdict :=
+  match cmds c with
+  | Some (orig, dec) => judge_cmds c orig dec
+  | None => judge_packet c
   end.
